@@ -207,6 +207,9 @@ func runC12(e *core.Env) {
 			}
 		}
 		minute := r.Intn(1440)
+		if obs.IsDSTDate(today) && minute%3 != 0 {
+			minute = obs.NearMidnight(minute) // where "24 hours ago" and "yesterday" part ways
+		}
 		clock := obs.ClockAt(today, minute, 0)
 		for v := 0; v < 12; v++ {
 			caseID := i*12 + int64(v)
@@ -282,7 +285,12 @@ func c12Check(e *core.Env, r *core.Rand, d *gen.Out, f string, inFiles []string,
 		return
 	}
 	cpus := r.PickInt(1, 1, 3)
-	res := runRO(e, &cli.Report{AggregateBy: agg, Fill: fill, DiffArgs: util.DiffArgs{Diff: diff}, FilterArgs: fa, NowArgs: util.NowArgs{Now: now}, DecimalArgs: util.DecimalArgs{Decimal: true},
+	// the bar chart: one more cell per data row, none in gap rows; the bar is a view of the same total
+	chart, chartRes := core.Hash64("c12-chart", d.Text, fmt.Sprint(w["view"]))%4 == 0, 0
+	if chart && core.Hash64("c12-chartres", d.Text)%2 == 0 {
+		chartRes = []int{15, 30, 60, 240, 7}[core.Hash64("c12-chartres2", d.Text, fmt.Sprint(w["view"]))%5]
+	}
+	res := runRO(e, &cli.Report{AggregateBy: agg, Fill: fill, Chart: chart, ChartResolution: chartRes, DiffArgs: util.DiffArgs{Diff: diff}, FilterArgs: fa, NowArgs: util.NowArgs{Now: now}, DecimalArgs: util.DecimalArgs{Decimal: true},
 		WarnArgs: util.WarnArgs{NoWarn: true}, NoStyleArgs: util.NoStyleArgs{NoStyle: true}, InputFilesArgs: util.InputFilesArgs{File: files(inFiles...)}}, cpus, "", "", clock)
 	if len(inFiles) > 1 {
 		e.Count("views_over_two_input_files", 1)
@@ -305,6 +313,12 @@ func c12Check(e *core.Env, r *core.Rand, d *gen.Out, f string, inFiles []string,
 		}
 		if now {
 			args = append(args, "--now")
+		}
+		if chart {
+			args = append(args, "--chart")
+		}
+		if chartRes > 0 {
+			args = append(args, "--chart-res", strconv.Itoa(chartRes))
 		}
 		args = append(append(args, q.Args()...), inFiles...)
 		if !cliAgrees(e, w, args, cpus, "", "", clock, res.Out, false) {
@@ -406,7 +420,23 @@ func c12Check(e *core.Env, r *core.Rand, d *gen.Out, f string, inFiles []string,
 	if len(wantRows) > 0 {
 		fmt.Sscanf(wantRows[0].key[1:], "%d", &firstYear)
 	}
-	rows, grand, rerr := parseReport(res.Out, agg, diff, firstYear)
+	reportText := res.Out
+	var bars []int
+	if chart {
+		var sb strings.Builder
+		ls := strings.Split(strings.TrimRight(res.Out, "\n"), "\n")
+		for k, l := range ls {
+			if k >= 1 && k < len(ls)-2 {
+				bars = append(bars, strings.Count(l, "▇"))
+			} else if strings.Contains(l, "▇") {
+				e.Violation("report-output-malformed", "a bar outside the data rows:\n"+res.Out, w)
+				return
+			}
+			sb.WriteString(strings.TrimRight(strings.ReplaceAll(l, "▇", ""), " ") + "\n")
+		}
+		reportText = sb.String()
+	}
+	rows, grand, rerr := parseReport(reportText, agg, diff, firstYear)
 	if rerr != nil {
 		e.Violation("report-output-malformed", fmt.Sprintf("%v\n%s", rerr, res.Out), w)
 		return
@@ -439,6 +469,23 @@ func c12Check(e *core.Env, r *core.Rand, d *gen.Out, f string, inFiles []string,
 	if strconv.Itoa(grand[0]) != to.Total || (diff && (strconv.Itoa(grand[1]) != to.Should || strconv.Itoa(grand[2]) != to.Diff)) {
 		e.Violation("report-grand-total-differs-from-klog-total", fmt.Sprintf("%s: grand total %v, `klog total` says Total=%s Should=%s Diff=%s", w["view"], grand, to.Total, to.Should, to.Diff), w)
 		return
+	}
+	if chart {
+		unit := chartRes
+		if unit == 0 {
+			unit = map[string]int{"y": 3360, "q": 480, "m": 240, "w": 60, "d": 15}[agg[:1]]
+		}
+		for k := range rows {
+			want := 0
+			if len(rows[k].values) > 0 && rows[k].values[0] > 0 {
+				want = (rows[k].values[0] + unit - 1) / unit
+			}
+			if k >= len(bars) || bars[k] != want {
+				e.Violation("report-chart-wrong", fmt.Sprintf("%s: row %d (%s, total %v) has a bar of %d blocks, expected %d (one block per started %d minutes)\n%s", w["view"], k, rows[k].key, rows[k].values, bars[k], want, unit, res.Out), w)
+				return
+			}
+		}
+		e.Count("report_views_with_chart", 1)
 	}
 	_ = wantShould
 	e.Count("report_views", 1)
